@@ -538,7 +538,7 @@ def gen(rng, tier):
                         o = {'lags': lg, 'leads': ld, 'min_lags': ml, 'min_leads': md}
                         cases.append({'script': script, 'ast': None, 'expect': exp, 'opts': o, 'n': _ns(rng, _need(exp, o)), 'solve': False})
     # structured scripts
-    for _ in range(100000 if big else 8000):
+    for _ in range(100000 if big else 5000):
         safe = rng.random() < 0.35
         ast = bc.gen_ast(rng, safe=safe)
         if rng.random() < 0.15 and len(ast) >= 2:          # the same variable assigned twice
@@ -555,7 +555,7 @@ def gen(rng, tier):
         cases.append({'script': script, 'ast': ast, 'expect': None, 'opts': o, 'n': _ns(rng, _need(exp, o)), 'solve': bool(solve),
                       'span': rng.choice(SPANS + ['list', 'list'])})
     # malformed stream
-    for _ in range(25000 if big else 2500):
+    for _ in range(25000 if big else 1500):
         s = pc.gen_script(rng)
         if rng.random() < 0.6:
             s = pc.mutate(rng, s)
